@@ -91,6 +91,6 @@ Proof. exact table_payload_pointer. Qed.
 Print Assumptions C04_pointer_field.
 
 Example C04_example :
-  map mo_n (snd (mux_run (new_muxer 2) ex_ops)) = [0; 0; 0; 940; 188; 3572; 0; 0; 0; 564; 0; 0; 376] /\
-  map (fun o => Z.of_nat (length (mout_bytes o))) (snd (mux_run (new_muxer 2) ex_ops)) = [0; 0; 0; 940; 188; 3572; 0; 0; 0; 564; 0; 0; 376].
+  map mo_n (snd (mux_run (new_muxer 2) ex_ops)) = [0; 0; 0; 940; 188; 3572; 0; 0; 0; 564; 0; 0; 0; 188; 376] /\
+  map (fun o => Z.of_nat (length (mout_bytes o))) (snd (mux_run (new_muxer 2) ex_ops)) = [0; 0; 0; 940; 188; 3572; 0; 0; 0; 564; 0; 0; 0; 188; 376].
 Proof. vm_compute. split; reflexivity. Qed.
